@@ -1519,9 +1519,8 @@ def remove_stns_sinex(sinex, sites):
         # Get header line and update the creation time and the number of
         # parameter estimates. Write the updated header line to the new file
         header = read_sinex_header_line(sinex)
-        old_creation_time = header[15:27]
         creation_time = set_creation_time()
-        header = header.replace(old_creation_time, creation_time)
+        header = header[:15] + creation_time + header[27:]
         old_num_params = header[60:65]
         if header[70:71] == 'V':
             num_stn_params = 6
@@ -1536,7 +1535,7 @@ def remove_stns_sinex(sinex, sites):
         del solution_epochs
         num_params = int(old_num_params) - num_stn_params * num_stns_to_remove
         num_params = '{:05d}'.format(num_params)
-        header = header.replace(str(old_num_params), str(num_params))
+        header = header[:60] + num_params + header[65:]
         out.write(header)
 
         out.write("*-------------------------------------------------------------------------------\n")
@@ -1858,9 +1857,8 @@ def remove_matrixzeros_sinex(sinex):
         # - update the creation time 
         # - then write to file
         header = read_sinex_header_line(sinex)
-        old_creation_time = header[15:27]
         creation_time = set_creation_time()
-        header = header.replace(old_creation_time, creation_time)
+        header = header[:15] + creation_time + header[27:]
         out.write(header)
         del header
 
